@@ -243,8 +243,71 @@ func (m *mtable) inDomain(op sim.Op) bool {
 		return r >= 0 && r < len(m.rows) && col >= 0 && col < len(m.rows[r]) && m.gridCol(r, col) == col && m.rows[r][col].span == 1 && m.rows[r][col].vm == ""
 	}
 	switch op.K {
-	case "t.insrow", "t.approw", "t.delrow", "t.delrows", "t.inscol", "t.appcol", "t.delcol", "t.delcols":
-		return !m.merged()
+	case "t.insrow", "t.approw":
+		// a new row gets as many cells as the first row physically has: right while the first row has no spanning cell;
+		// a row put between the rows of a vertical merge is the listed finding insertrow-inside-vmerge
+		if len(m.rows) == 0 {
+			return true
+		}
+		for _, c := range m.rows[0] {
+			if c.span != 1 {
+				return false
+			}
+		}
+		if op.K == "t.insrow" && a > 0 && a < len(m.rows) {
+			for _, c := range m.rows[a] {
+				if c.vm == "continue" {
+					return false
+				}
+			}
+		}
+		return true
+	case "t.delrow", "t.delrows":
+		// deleting the row that starts a vertical merge is the listed finding deleterow-vmerge-start
+		lo, hi := a, a
+		if op.K == "t.delrows" {
+			hi = b
+		}
+		for r := lo; r <= hi && r < len(m.rows); r++ {
+			if r < 0 {
+				continue
+			}
+			for _, c := range m.rows[r] {
+				if c.vm == "restart" {
+					return false
+				}
+			}
+		}
+		return true
+	case "t.inscol", "t.appcol", "t.delcol", "t.delcols":
+		// column edits address the same physical index in every row: in the domain while that index is the same grid column in
+		// every row (no spanning cell in front of it - for deletions none in the deleted range either) and every row is long enough
+		if len(m.rows) == 0 {
+			return true
+		}
+		upto := a // cells [0, upto) must have span 1
+		switch op.K {
+		case "t.appcol":
+			upto = len(m.rows[0])
+		case "t.delcol":
+			upto = a + 1
+		case "t.delcols":
+			upto = b + 1
+		}
+		if upto < 0 || upto > len(m.rows[0])+1 {
+			return true // rejected anyway
+		}
+		for _, row := range m.rows {
+			if upto > len(row) {
+				return !m.merged() // a rectangular table rejects it; a ragged one is the listed findings ragged-*-panics
+			}
+			for i := 0; i < upto; i++ {
+				if row[i].span != 1 {
+					return false
+				}
+			}
+		}
+		return true
 	case "t.mergeh":
 		if a < 0 || a >= len(m.rows) {
 			return true // rejected anyway
